@@ -3,7 +3,7 @@ dependencies), runs the listed harnesses, parses per-harness results, and on fai
 concrete counterexample (Kani concrete playback) and replays it natively against the real code.
 """
 from __future__ import annotations
-import json, os, re, shutil, subprocess, sys, time
+import json, os, re, resource, shutil, subprocess, sys, time
 from dataclasses import dataclass, field
 from typing import Dict, List, Optional
 
@@ -55,8 +55,15 @@ def crate_dir(crate: str) -> str:
   return dst
 
 
+def _limit_mem(gb: int):
+  def f():
+    lim = gb * 1024 * 1024 * 1024
+    resource.setrlimit(resource.RLIMIT_AS, (lim, lim))
+  return f
+
+
 def run_group(crate: str, harnesses: List[str], features: str = '', jobs: int = 8, timeout: int = 1800,
-              extra: Optional[List[str]] = None, playback: bool = True) -> List[HarnessResult]:
+              extra: Optional[List[str]] = None, playback: bool = True, mem_gb: int = 24) -> List[HarnessResult]:
   d = crate_dir(crate)
   env = _env(crate, features)
   cmd = ['cargo', 'kani', '-Z', 'function-contracts', '-Z', 'stubbing', '--output-format=terse', '-j', str(jobs)]
@@ -69,11 +76,11 @@ def run_group(crate: str, harnesses: List[str], features: str = '', jobs: int = 
   timed_out = False
   with open(log, 'w') as f:
     try:
-      p = subprocess.run(cmd, cwd=d, env=env, stdout=f, stderr=subprocess.STDOUT, timeout=timeout)
+      p = subprocess.run(cmd, cwd=d, env=env, stdout=f, stderr=subprocess.STDOUT, timeout=timeout, preexec_fn=_limit_mem(mem_gb))
       rc = p.returncode
     except subprocess.TimeoutExpired:
       timed_out = True; rc = -9
-      subprocess.run(['pkill', '-f', 'cbmc'], capture_output=True)
+      subprocess.run(['pkill', 'cbmc'], capture_output=True)
   out = open(log, errors='replace').read()
   res = parse_kani(out, crate, features)
   by = {r.harness: r for r in res}
